@@ -1,5 +1,6 @@
 from vp.core import Query
 from vp import skel
+from vp.skel import KIT_RULES
 
 LEVEL = "model_checking"
 UNITS = ["src/sp/protocol/pipeline0/push.c", "src/sp/protocol/pipeline0/pull.c", "src/core/lmq.c", "src/core/list.c", "src/core/pollable.c"]
@@ -30,7 +31,7 @@ def queries(tier):
         if w in seen:
             continue
         seen.add(w)
-        qs.append(Query("push-" + skel.tag(w), "c06/push.c", tus=TUS, env=ENV, defs={"SKEL": w}, unwind=30, timeout=300,
+        qs.append(Query("push-" + skel.tag(w), "c06/push.c", tus=TUS, env=ENV, defs={"SKEL": w}, unwind=10, unwind_rules=KIT_RULES, timeout=300,
                         params={"protocol": "push0", "skeleton": w}))
     PULL_CUR = ["A(0) W(0) R(0,1) Z", "A(0) R(0,1) W(0) Z", "A(0) A(1) W(0) W(1) R(0,0) R(1,0) R(2,0) Z", "A(0) W(0) C(0) R(0,0) Z",
                 "A(0) R(0,1) X(0) W(0) R(1,0) Z", "A(0) R(0,1) R(1,1) W(0) W(0) Z", "A(0) W(0) R(0,0) W(0) R(1,0) W(0) R(2,1) Z",
@@ -42,7 +43,7 @@ def queries(tier):
         if w in seen:
             continue
         seen.add(w)
-        qs.append(Query("pull-" + skel.tag(w), "c06/pull.c", tus=TUS, env=ENV, defs={"SKEL": w}, unwind=30, timeout=300,
+        qs.append(Query("pull-" + skel.tag(w), "c06/pull.c", tus=TUS, env=ENV, defs={"SKEL": w}, unwind=10, unwind_rules=KIT_RULES, timeout=300,
                         params={"protocol": "pull0", "skeleton": w}))
     return qs
 
